@@ -44,14 +44,17 @@ TExport ==
   /\ LET r == Trace[l].route
          o == Trace[l].obs
          t == IF Trace[l].to = 2 THEN ctx.peer2 ELSE ctx.peer
-     IN /\ ev' = [kind |-> "export", route |-> r, obs |-> o, peer |-> t, to |-> Trace[l].to]
+     IN /\ ev' = [kind |-> "export", route |-> r, olds |-> Trace[l].olds, wd |-> Trace[l].wd, obs |-> o,
+                   peer |-> t, to |-> Trace[l].to]
         (* binding: the path the harness built projects back to the abstract route *)
         /\ Assert(Trace[l].to # 1 \/ (o.before.attrs = Attrs(r) /\ ~o.before.wd),
                   <<"harness built a path that does not project to the route", ctx.tid>>)
         /\ Assert(o.adv \in {"yes", "no", "withdraw"}, <<"unexpected number of produced paths", ctx.tid>>)
         (* distinct non-trivial cases: something was sent (attribute rules exercised), or the
            route was one that must not be sent (loop-prevention rules exercised) *)
-        /\ NoteIf(o.adv = "yes" \/ ~MayAdvertise(r, t, ctx.local), <<ctx.tid, Trace[l].to>>)
+        /\ Assert(Trace[l].to # 1 \/ \A i \in DOMAIN o.oldbefore : o.oldbefore[i].attrs = Attrs(Trace[l].olds[i]),
+                  <<"harness built an old path that does not project to its route", ctx.tid>>)
+        /\ NoteIf(o.adv = "yes" \/ ~MayAdvertise(r, t, ctx.local), <<ctx.tid, l>>)
   /\ UNCHANGED <<ctx, ribs>>
 
 PrevRib(k) == IF k \in DOMAIN ribs THEN ribs[k] ELSE {}
@@ -91,6 +94,36 @@ C09_MayAdvertise ==
 C09_StoredUnchanged ==
   IsExport => /\ ev.obs.after = ev.obs.before
               /\ ev.obs.before.attrs = Attrs(ev.route)     \* still the route that was stored
+              /\ ev.obs.oldafter = ev.obs.oldbefore        \* nor is the previous best touched
+              /\ \A i \in DOMAIN ev.obs.oldbefore : ev.obs.oldbefore[i].attrs = Attrs(ev.olds[i])
+
+(* the per-neighbour AS_PATH options do not keep a route back: what may be sent to an external
+   peer - judged on the AS_PATH after replace-peer-as - is sent (Export!MustAdvertise) *)
+C09_Advertise ==
+  (IsExport /\ ~ev.wd /\ MustAdvertise(ev.route, ev.peer, ctx.local)) => ev.obs.adv = "yes"
+
+(* implicit replacement: the new best must not go to the external peer but the previous best went
+   there: it is withdrawn explicitly, the peer is not left with the old route.  Likewise when the
+   best route goes away altogether (ev.wd: the withdrawal of the route is what is exported); a
+   withdrawal never turns into an advertisement. *)
+WithdrawOwed ==
+  IF ev.wd THEN MustWithdrawGone(ev.route, ev.peer, ctx.local)
+  ELSE MustWithdraw(ev.route, ev.olds, ev.peer, ctx.local)
+C09_Withdraw ==
+  IsExport => /\ (WithdrawOwed => ev.obs.adv = "withdraw")
+              /\ (ev.wd => ev.obs.adv # "yes")
+
+(* KNOWN FINDING KF-C09-override-withdraw-dropped: with replace-peer-as the AS override is applied
+   to announcements only; the sender-side loop check then sees the RAW AS_PATH of a withdrawal (of
+   the route itself, or of the previous best substituted for a route that goes back to its
+   source), finds the peer's AS and drops the withdrawal: the peer keeps a route that is gone.
+   Tolerated: exactly the withdrawals of routes whose stored AS_PATH holds the AS of a
+   replace-peer-as peer. *)
+OverrideWithdraw ==
+  /\ IsExport /\ ev.peer.rpeer /\ ev.obs.adv = "no"
+  /\ LET gone == IF ev.wd THEN ev.route ELSE ev.olds[1]
+     IN ev.peer.as \in ASSetOf(gone.aspath, {"SEQ", "SET"})
+C09_Withdraw_KF == C09_Withdraw \/ (WithdrawOwed /\ OverrideWithdraw)
 
 (* a received route with the own AS beyond allow-own-as, the own router-id as ORIGINATOR_ID or the
    own cluster-id in CLUSTER_LIST is not used *)
@@ -120,7 +153,7 @@ OnlyClusterReason == /\ ClusterLoop(ev.route, ctx.peer, ctx.local)
 C09_Inbound_KF == C09_Inbound \/ (IsRecv /\ OnlyClusterReason)
 
 (* informational: the code follows the mechanism model exactly *)
-Conf_Advertise == IsExport => ev.obs.adv = MechAdvertise(ev.route, ev.peer, ctx.local)
+Conf_Advertise == IsExport => ev.obs.adv = MechAdvertiseW(ev.route, ev.olds, ev.wd, ev.peer, ctx.local)
 Conf_Attrs ==
   (IsExport /\ ev.obs.adv = "yes") =>
     LET m == MechAttrs(ev.route, ev.peer, ctx.local)
@@ -135,7 +168,8 @@ Conf_Inbound ==
    otherwise cost one TLC run per failing trace). *)
 ASSUME TLCSet(3, {})
 ASSUME TLCSet(4, {})
-ScanStrict == C09_Attrs /\ C09_MayAdvertise /\ C09_StoredUnchanged /\ C09_Inbound /\ C09_InboundNoStale
+ScanStrict == C09_Attrs /\ C09_MayAdvertise /\ C09_Advertise /\ C09_Withdraw /\ C09_StoredUnchanged
+              /\ C09_Inbound /\ C09_InboundNoStale
 ScanConf   == Conf_Advertise /\ Conf_Attrs /\ Conf_Inbound
 Scan == /\ (IF ScanStrict THEN TRUE ELSE TLCSet(3, TLCGet(3) \cup {ctx.tid}))
         /\ (IF ScanConf THEN TRUE ELSE TLCSet(4, TLCGet(4) \cup {ctx.tid}))
